@@ -542,6 +542,8 @@ type c08CLICase struct {
 	Args  []string          `json:"args"`
 	Links map[string]string `json:"links,omitempty"` // symlink name -> target text
 	Env   []string          `json:"env,omitempty"`   // extra environment entries, passed verbatim
+	// MustFail: the input holds a definite reference cycle, so exit status 0 is itself the violation
+	MustFail bool `json:"must_fail,omitempty"`
 }
 
 type c08Inj struct {
@@ -614,6 +616,24 @@ func c08CLICases(inj []c08Inj, thorough bool) []c08CLICase {
 		out = append(out, c08CLICase{Tool: "bkl", Files: map[string]string{"in.yaml": content}, Args: []string{"in.yaml"}})
 		out = append(out, c08CLICase{Tool: "bkl", Files: map[string]string{"in.yaml": content}, Args: []string{"-o", "o.json", "in.yaml"}})
 		out = append(out, c08CLICase{Tool: "bklr", Files: map[string]string{"in.yaml": content}, Args: []string{"in.yaml"}})
+	}
+	// a $merge that resolves to the map carrying it, in every spelling: a cycle, to be reported
+	for _, content := range []string{
+		"a: {x: 1, $merge: a}\n", "a: {x: 1, $merge: [a]}\n", "a:\n  b: {$merge: a}\n", "$merge: []\nk: 1\n", "a: {$merge: a}\n",
+		"l: [{$merge: l}, 1]\n", "a: {x: 1}\n---\n$match: {}\na: {$merge: a, y: 2}\n",
+	} {
+		out = append(out, c08CLICase{Tool: "bkl", Files: map[string]string{"in.yaml": content}, Args: []string{"in.yaml"}, MustFail: true})
+	}
+	// YAML merge keys whose operand is not what the specification asks for
+	for _, content := range []string{
+		"b: &b {k: 1}\nm:\n  <<: [*b, 5]\n", "b: &b {k: 1}\nm:\n  <<: [*b, null]\n", "b: &b {k: 1}\nm:\n  <<: [[*b], *b]\n", "m:\n  <<: 5\n", "m:\n  <<: text\n  k: 1\n",
+		"c: &c [1]\nm:\n  <<: *c\n", "m:\n  <<: null\n", "m:\n  <<: [{a: 1}, [2]]\n",
+	} {
+		for _, t := range []string{"bkl", "bklr"} {
+			out = append(out, c08CLICase{Tool: t, Files: map[string]string{"in.yaml": content}, Args: []string{"in.yaml"}})
+		}
+		out = append(out, c08CLICase{Tool: "bkld", Files: map[string]string{"in.yaml": content, "t.yaml": "a: 1\n"}, Args: []string{"t.yaml", "in.yaml"}})
+		out = append(out, c08CLICase{Tool: "bkli", Files: map[string]string{"in.yaml": content, "t.yaml": "a: 1\n"}, Args: []string{"in.yaml", "t.yaml"}})
 	}
 	// -P (MergeFile instead of MergeFileLayers): inputs that fail to load or to merge must still be reported
 	for _, content := range []string{"a: [\n", "$match: {zz: 1}\nb: 1\n", "a: $required\n", "{\"a\": }\n", "a: 1\n---\n$match: {nope: 1}\nb: 2\n", "$parent: true\n", "a: &x [*x]\n"} {
@@ -759,6 +779,11 @@ func c08CLI(c *core.Ctx, cs c08CLICase) {
 	if code == 0 {
 		c.Outcome("cli-exit0")
 		c.Nontrivial()
+		if cs.MustFail {
+			c.Outcome("CYCLE-NOT-REPORTED")
+			c.Fail("cycle-is-an-error", "self-reference-evaluated", wit, map[string]any{"stdout": headTailS(so.String(), 500)})
+			return
+		}
 		c08CLIComplete(c, cs, dir, wit, so.Bytes())
 		return
 	}
